@@ -78,6 +78,11 @@ def items(tier):
         out.append({"name": "comp|" + G.show(a), "ast": a, "aspect": "compose", "tier": tier})
     for a in density_exprs(tier):
         out.append({"name": "dens|" + G.show(a), "ast": a, "aspect": "density", "tier": tier})
+    for shape in ("tetra", "box"):
+        for winding in ("out", "in"):
+            for source in ("arrays", "file"):
+                out.append({"name": "trimesh|%s|%s|%s" % (shape, winding, source), "aspect": "trimesh", "shape": shape, "winding": winding,
+                            "source": source, "tier": tier, "ast": None})
     return out
 
 
@@ -86,7 +91,91 @@ def _vol(D, prm):
     return torch.as_tensor(v)
 
 
+def run_trimesh(item):
+    """TrimeshPolyhedron (a primitive whose vertex orientation and construction path vary): volume, surface, box,
+    membership, sample membership and density counts against the convex-polyhedron reference (tpmc/ref/poly3d.py).
+    trimesh draws from numpy's global generator, which is seeded (not enumerated) here."""
+    import os, shutil, tempfile
+    from ..ref import poly3d as P3
+    res = {"evals": 0, "transitions": 0, "states": [], "outcomes": [], "violations": [], "rejected": 0, "samples": []}
+    name = item["name"]
+    seen = set()
+
+    def viol(key, what):
+        if key in seen:
+            return
+        seen.add(key)
+        res["violations"].append({"key": key, "what": "%s: %s" % (name, what), "detail": {"item": name}})
+    v, f = P3.SHAPES[item["shape"]]
+    tmp = tempfile.mkdtemp(prefix="tpmc_c10_", dir=os.environ.get("TMPDIR"))
+    try:
+        try:
+            D = P3.build(item["shape"], item["winding"], item["source"], tmp)
+        except Exception as e:
+            viol("C10|error|%s|trimesh-constructor" % type(e).__name__, "constructor raised %s: %s" % (type(e).__name__, str(e)[:120]))
+            return res
+        res["states"].append(name)
+        V, A = P3.volume(v, f), P3.area(v, f)
+        got = float(torch.as_tensor(D.volume()).reshape(-1)[0])
+        gotb = float(torch.as_tensor(D.boundary.volume()).reshape(-1)[0])
+        res["evals"] += 2
+        if not (got > 0) or abs(got - V) > 1e-5 * V:
+            viol("C10|volume-value|trimesh", "volume() = %.6f, true volume %.6f" % (got, V))
+        elif abs(gotb - A) > 1e-5 * A:
+            viol("C10|volume-value|trimesh-boundary", "boundary volume() = %.6f, true surface area %.6f" % (gotb, A))
+        else:
+            res["outcomes"].append(name + "|volume")
+        bx = torch.as_tensor(D.bounding_box()).double().numpy().reshape(-1, 2)
+        if not np.allclose(bx, P3.box(v), atol=1e-6):
+            viol("C10|trimesh-box", "bounding_box() = %s, exact %s" % (bx.tolist(), P3.box(v).tolist()))
+        # membership on a lattice (points farther than 1e-3 from the surface)
+        b = P3.box(v)
+        ax = [np.linspace(b[i, 0] - 0.2, b[i, 1] + 0.2, 9) for i in range(3)]
+        Q = np.stack(np.meshgrid(*ax, indexing="ij"), -1).reshape(-1, 3)
+        sd = P3.sdf_bound(v, f, Q)
+        lib = (torch.as_tensor(D._contains(Points(torch.tensor(Q, dtype=torch.float32), D.space))).reshape(-1) != 0).numpy()
+        res["evals"] += len(Q)
+        badm = np.where(((sd < -1e-3) & ~lib) | ((sd > 1e-3) & lib))[0]
+        if len(badm):
+            viol("C10|trimesh-membership", "%d lattice points are misclassified, e.g. %s (reference signed distance %.3f)" % (len(badm), Q[badm[0]].tolist(), sd[badm[0]]))
+        # samples and density counts
+        for d in BOUNDS[item["tier"]]["densities"]:
+            for which, Dx, meas in (("solid", D, V), ("boundary", D.boundary, A)):
+                for mode in ("random", "grid"):
+                    np.random.seed(1234)
+                    res["transitions"] += 1
+                    res["evals"] += 1
+                    st = "%s|%s|%s|d=%g" % (name, which, mode, d)
+                    res["states"].append(st)
+                    try:
+                        with Seam():
+                            S = Dx.sample_random_uniform(d=d) if mode == "random" else Dx.sample_grid(d=d)
+                    except Exception as e:
+                        if not is_deliberate(e):
+                            viol("C10|error|%s|trimesh-density-%s" % (type(e).__name__, mode), "%s sampling with d=%g raised %s: %s" % (mode, d, type(e).__name__, str(e)[:100]))
+                        continue
+                    pts = S.as_tensor.double().numpy()
+                    sdp = P3.sdf_bound(v, f, pts)
+                    if which == "solid" and (sdp > 1e-4).any():
+                        viol("C10|trimesh-sample-outside", "%s %s sample with d=%g: %d points outside the polyhedron" % (which, mode, d, int((sdp > 1e-4).sum())))
+                        continue
+                    if which == "boundary" and (np.abs(sdp) > 1e-4).any():
+                        viol("C10|trimesh-sample-off-surface", "%s %s sample with d=%g: %d points off the surface" % (which, mode, d, int((np.abs(sdp) > 1e-4).sum())))
+                        continue
+                    want = int(math.ceil(float(np.float32(d) * np.float32(meas))))
+                    if len(pts) != want:
+                        viol("C10|density-count|trimesh-%s" % which, "%s %s sampling with d=%g returned %d points, ceil(d*measure)=ceil(%g*%.5f)=%d" % (which, mode, d, len(pts), d, meas, want))
+                    else:
+                        res["outcomes"].append(st)
+    finally:
+        shutil.rmtree(tmp, ignore_errors=True)
+    res["samples"] = [{"trimesh": name}]
+    return res
+
+
 def run_item(item):
+    if item["aspect"] == "trimesh":
+        return run_trimesh(item)
     a, aspect, tier = item["ast"], item["aspect"], item["tier"]
     name = G.show(a)
     res = {"evals": 0, "transitions": 0, "states": [], "outcomes": [], "violations": [], "rejected": 0, "samples": []}
